@@ -57,7 +57,7 @@ var localNameRe = regexp.MustCompile(`\b(phi|var):[A-Za-z_][A-Za-z0-9_]*`)
 
 func init() {
 	register("C07",
-		"Memory-safety obligations over every non-test function of gbn and mailbox: ERRUSE (a pointer-like value returned together with an error is not dereferenced, passed on or re-read from the field it was stored in before that error was found nil), WIN-4 (as C01: the window base moves only in the four legal ways, the exact-ACK move only on a non-empty queue - otherwise resend dereferences an empty slot), ORD-1 (as C01: containsSequence, the guard those moves rely on, decides membership in [base, top) exactly), BND (index/slice in bounds, proved from dominating length guards by interval analysis, or a listed site that relay data cannot reach), DIV (every integer divisor proved non-zero via field invariants that are themselves proved at every store and call site), INV (window fields sequenceBase/sequenceTop < s at every store; peer sequence numbers validated before use in window arithmetic; s=n+1 with n<=254 at every definition), ASSERT (every unchecked type assertion dominated by a successful test of that type, edge-sensitively for phis), MAKE (allocation sizes non-negative), PANIC (no explicit panic reachable), NILLATE (pointer fields of the connection that only start() fills in are nil-checked at every method call outside start and the goroutines it launches - Close also runs after a failed handshake). ERRUSE also covers slice results (indexing, slicing beyond 0, encoding/binary decoders) and errors handed to the caller untested. The GBNHS obligations of C10 (a failed handshake ends the constructor with an error) and SIZE are part of this check. Not decided: panics inside dependencies (protojson, websocket, btcec, regexp) on hostile input; nil-pointer dereferences.",
+		"Memory-safety obligations over every non-test function of gbn and mailbox: ERRUSE (a pointer-like value returned together with an error is not dereferenced, passed on or re-read from the field it was stored in before that error was found nil), WIN-4 (as C01: the window base moves only in the four legal ways, the exact-ACK move only on a non-empty queue - otherwise resend dereferences an empty slot), ORD-1 (as C01: containsSequence, the guard those moves rely on, decides membership in [base, top) exactly), BND (index/slice in bounds, proved from dominating length guards by interval analysis, or a listed site that relay data cannot reach), DIV (every integer divisor proved non-zero via field invariants that are themselves proved at every store and call site), INV (window fields sequenceBase/sequenceTop < s at every store; peer sequence numbers validated before use in window arithmetic; s=n+1 with n<=254 at every definition), ASSERT (every unchecked type assertion dominated by a successful test of that type, edge-sensitively for phis), MAKE (allocation sizes non-negative), PANIC (no explicit panic reachable), NILLATE (pointer fields of the connection that only start() fills in are nil-checked at every method call outside start and the goroutines it launches - Close also runs after a failed handshake). ERRUSE also covers slice results (indexing, slicing beyond 0, encoding/binary decoders) and errors handed to the caller untested. The GBNHS obligations of C10 (a failed handshake ends the constructor with an error) and SIZE are part of this check. NILWIRE: no field is selected through a sub-message pointer of a relay (hashmailrpc) message without a dominating nil test of that pointer (a box without desc is valid on the wire). Not decided: panics inside dependencies (protojson, websocket, btcec, regexp) on hostile input; nil-pointer dereferences.",
 		[]string{
 			"dependencies (bytes.Buffer, encoding/binary, protojson, websocket, btcec, regexp) do not panic on the inputs they are given; binary.BigEndian.UintNN requires a slice of sufficient length and is checked as such",
 			"authenticated plaintext (output of a successful DecryptAndHash/Decrypt) is chosen by the peer that holds the keys, not by the relay",
